@@ -69,6 +69,7 @@ func genConfig(t *rapid.T, o genOpts) Config {
 		oo.Compressions = append([]string{}, rapid.SampledFrom(compressionLists).Draw(t, "other_compressions")...)
 		oo.NoCompress = rapid.IntRange(0, 3).Draw(t, "other_no_compress") == 0
 		oo.MaxMsg = uint32(rapid.SampledFrom([]int{0, 0, 64, 4096}).Draw(t, "other_max_msg"))
+		oo.EmptyTypes = rapid.IntRange(0, 2).Draw(t, "other_empty_types") == 0
 		cfg.OtherOpts, cfg.OtherFirst = oo, rapid.Bool().Draw(t, "other_first")
 		if oo.NoCompress && rapid.Bool().Draw(t, "other_vs_default_compression") {
 			// the other service opts out of compression while this one relies on the library default
@@ -445,6 +446,7 @@ func genBackend(t *rapid.T, c *Client, o genOpts) Backend {
 	}
 	b.CloseBody = rapid.IntRange(0, 2).Draw(t, "close_body") == 0
 	if b.CloseBody {
+		b.CloseAgain = rapid.Bool().Draw(t, "close_again")
 		b.CloseAfterWrites = rapid.IntRange(0, 2).Draw(t, "close_after_writes")
 	}
 	fixTrailerStyle(&b)
